@@ -4,6 +4,9 @@
    answers to a fixed query set are recorded before the batch, after each
    failure, after the retry that follows it, after one clean insertion, and
    after inserting the batch twice.
+   CFaultAt: the same for a batch of more than 100 events, with the fault
+   injected at a sample of the driver-call indices (begin, a prepare, the
+   first exec, positions spread over the batch, the last execs, commit).
    CReopen: a batch history on a file-backed database that is closed and
    reopened at some positions, next to the same history without restarts.
    run_case = (the relational model accepts every recorded answer and predicts
@@ -19,6 +22,8 @@ Definition rstep := (bool * list event * list qres * list qres)%type.
 Inductive case :=
 | CFault (pre : list (list event)) (b : list event) (ncalls : Z) (qs : list (list rfilter))
          (before : list qres) (after_fault after_retry : list (list qres)) (clean twice : list qres)
+| CFaultAt (pre : list (list event)) (b : list event) (ncalls : Z) (qs : list (list rfilter))
+           (before : list qres) (ks : list Z) (after_fault after_retry : list (list qres)) (clean twice : list qres)
 | CReopen (qs : list (list rfilter)) (seeds : list Z) (steps : list rstep)
 | CBroken.
 
@@ -74,6 +79,20 @@ Definition run_case (c : case) : bool * bool :=
        all2 (fun k obs => accepts_all (insert_batch 0 (insert_batch_faulty 0 s0 b k) b) qs obs)
             (seq 0 (length after_retry)) after_retry &&&
        accepts_all s1 qs clean &&& accepts_all (insert_batch 0 s1 b) qs twice,
+       forallb (fun obs => same_answers obs before) after_fault &&&
+       forallb (fun obs => same_answers obs clean) after_retry &&&
+       same_answers twice clean &&& spec_all (concat pre ++ b) qs clean)
+  | CFaultAt pre b ncalls qs before ks after_fault after_retry clean twice =>
+      let s0 := run 0 empty_db pre in
+      let n := batch_calls 0 s0 b in
+      let s1 := insert_batch 0 s0 b in
+      ((ncalls =? Z.of_nat n) &&& forallb (fun k => (0 <=? k) &&& (k <? ncalls)) ks &&&
+       accepts_all s0 qs before &&&
+       all2 (fun k obs => accepts_all (insert_batch_faulty 0 s0 b (Z.to_nat k)) qs obs) ks after_fault &&&
+       all2 (fun k obs => accepts_all (insert_batch 0 (insert_batch_faulty 0 s0 b (Z.to_nat k)) b) qs obs)
+            ks after_retry &&&
+       accepts_all s1 qs clean &&& accepts_all (insert_batch 0 s1 b) qs twice,
+       Nat.eqb (length after_fault) (length ks) &&& Nat.eqb (length after_retry) (length ks) &&&
        forallb (fun obs => same_answers obs before) after_fault &&&
        forallb (fun obs => same_answers obs clean) after_retry &&&
        same_answers twice clean &&& spec_all (concat pre ++ b) qs clean)
